@@ -195,14 +195,18 @@ class Interp:
         self.decide = decide        # hook(interp, term) -> bool|None
         self.pure_calls = set(pure_calls) | {
             'datetime.datetime', 'datetime.timedelta', 'datetime.date',
-            'datetime.timezone', 'fractions.Fraction', 'decimal.Decimal'}
+            'datetime.timezone', 'fractions.Fraction', 'decimal.Decimal',
+            'math.isclose', 'encodings.normalize_encoding',
+            'urllib.parse.unquote'}
         self.on_method = None       # hook(term, name, args, kwargs)
         self.stubs = {}             # in-repo qualname -> behaviour
         self.on_yield = None        # hook(interp, value) for generators
         self.guide = None           # evaluator(term) for lazy enumeration
         self.pure_methods = set()   # method names kept as pure terms
         self.ret_types = {'unicodedata.normalize': 'str', 're.sub': 'str',
-                          're.Pattern.sub': 'str'}
+                          're.Pattern.sub': 'str',
+                          'encodings.normalize_encoding': 'str',
+                          'urllib.parse.unquote': 'str'}
         self.types = {}             # term -> type tag
         self.attrs = {}             # term -> {attribute: value}
         self.lens = {}              # term -> known length
